@@ -93,6 +93,8 @@ func generate(family string, n int, seed uint64) []Scenario {
 			out = append(out, genF8(i))
 		case "stale":
 			out = append(out, genStale(i))
+		case "errwin":
+			out = append(out, genErrWin(rr, i))
 		case "boot":
 			out = append(out, genBoot(rr, i))
 		default:
